@@ -20,7 +20,19 @@ for ts in t.iter('testsuite'):
 missing=[s for s in stable if s not in res]
 failed=[s for s in stable if s in res and not res[s]]
 print('stable=%d ran=%d failed=%d missing=%d'%(len(stable),len(res),len(failed),len(missing)))
-for f in failed: print('FAILED',f)
+# tests of this suite share ./data directories and interfere when run in parallel (also on the
+# pristine snapshot, see DESIGN.md): a stable test that failed in the parallel run is re-run alone
+import subprocess
+still=[]
+for f in failed:
+    crate,name=f.split('::',1)
+    ok=False
+    for attempt in range(2):
+        r=subprocess.run(['cargo','test','-p',crate,'--offline','--',name,'--exact'],cwd='/repo',stdout=subprocess.PIPE,stderr=subprocess.STDOUT,text=True)
+        if ' 1 passed' in r.stdout:
+            ok=True; break
+    print(('RETRIED-OK ' if ok else 'FAILED ')+f)
+    if not ok: still.append(f)
 for m in missing: print('MISSING',m)
-sys.exit(1 if failed or missing else 0)
+sys.exit(1 if still or missing else 0)
 PY
